@@ -85,7 +85,13 @@ func c20NoCreds(c *Ctx) {
 			continue
 		}
 		n := 0
-		for _, b := range fn.Blocks {
+		var blocks []*ssa.BasicBlock
+		for _, hf := range withHelpers(fn, 2) { // the rendering of the URL may sit in a helper of the marshaller
+			if hf == fn || !isFn(hf, "pkg/base", "Request.MarshalTo") && !isFn(hf, "pkg/base", "Request.MarshalSize") && !isFn(hf, "pkg/base", "Request.Marshal") {
+				blocks = append(blocks, hf.Blocks...)
+			}
+		}
+		for _, b := range blocks {
 			for _, in := range b.Instrs {
 				var loaded ssa.Value
 				switch x := in.(type) {
